@@ -132,7 +132,7 @@ let summary (r : run) chk =
   match r.fin with
   | Some (s, k) when r.result = "ok" ->
     let ext = List.exists (function WExt _ -> true | _ -> false) s.wlog in
-    let lib = if not chk then "-" else if not (aligned_final s k) then "bad" else if r.late_possible then "late" else "ok" in
+    let lib = if not chk then "-" else if not (aligned_final s k) then "bad" else "ok" in   (* since /repo 5c4764e unread handshake data is dispatched at once (before: "late" when r.late_possible) *)
     Printf.sprintf "w=%s m=%s" (wstring s) (if ext then "20,5" else "5"), lib
   | _ -> "w=- m=-", "-"
 
